@@ -2423,8 +2423,8 @@ class XonshParser(Parser):
         if env_atom := self.env_atom():
             return env_atom
         self._reset(mark)
-        if help_atom := self.help_atom():
-            return help_atom
+        if a := self.help_atom():
+            return self.expand_help([a], **self.span(_lnum, _col))
         self._reset(mark)
         if search_path := self.search_path():
             return search_path
